@@ -10,6 +10,7 @@ import (
 	"os"
 	"sort"
 	"strings"
+	"time"
 
 	"golang.org/x/tools/go/ssa"
 )
@@ -37,27 +38,31 @@ type Obligation struct {
 }
 
 type Engine struct {
-	w           *World
-	db          *SpecDB
-	obls        []*Obligation
-	unspecified map[string]bool
-	inlined     map[string]bool
-	usedSpecs   map[string]bool
-	notes       []string
-	pathBudget  int
-	paths       int
-	overlay     map[string][]byte
-	nextCell    int
-	curFn       *ssa.Function
-	curContract *Contract
-	entry       *State
-	entryParams map[string]SVal
-	mode        string // "verify" (default) or "nopanic"
-	srcCache    map[string][]byte
-	axioms      []*Term
-	covered     []*Term // pcs of reached returns (vacuity)
-	returns     int
-	frame       *frameInfo
+	w            *World
+	db           *SpecDB
+	obls         []*Obligation
+	unspecified  map[string]bool
+	inlined      map[string]bool
+	usedSpecs    map[string]bool
+	notes        []string
+	pathBudget   int
+	paths        int
+	overlay      map[string][]byte
+	nextCell     int
+	curFn        *ssa.Function
+	curContract  *Contract
+	entry        *State
+	entryParams  map[string]SVal
+	mode         string // "verify" (default) or "nopanic"
+	srcCache     map[string][]byte
+	axioms       []*Term
+	covered      []*Term // pcs of reached returns (vacuity)
+	returns      int
+	frame        *frameInfo
+	curProp      string
+	mergeInlined bool
+	deadline     time.Time
+	funcBudgetS  int
 }
 
 type frameObj struct {
@@ -96,20 +101,20 @@ type deferred struct {
 }
 
 type mapIter struct {
-	m       *Term
-	mt      *types.Map
-	cell    int // holds the visited set (Array K Bool) as a scalar Val
-	isStr   bool
+	m     *Term
+	mt    *types.Map
+	cell  int // holds the visited set (Array K Bool) as a scalar Val
+	isStr bool
 }
 
 type Loop struct {
 	autoFrame []string
-	Header  *ssa.BasicBlock
-	Blocks  map[*ssa.BasicBlock]bool
-	Ordinal int
-	Text    string
-	Pos     token.Pos
-	Spec    *LoopSpec
+	Header    *ssa.BasicBlock
+	Blocks    map[*ssa.BasicBlock]bool
+	Ordinal   int
+	Text      string
+	Pos       token.Pos
+	Spec      *LoopSpec
 }
 
 type Outcome struct {
@@ -123,7 +128,7 @@ type unsupported struct{ msg string }
 func unsupp(f string, a ...interface{}) { panic(unsupported{fmt.Sprintf(f, a...)}) }
 
 func newEngine(w *World, db *SpecDB) *Engine {
-	return &Engine{w: w, db: db, unspecified: map[string]bool{}, inlined: map[string]bool{}, usedSpecs: map[string]bool{}, pathBudget: 6000, srcCache: map[string][]byte{}}
+	return &Engine{w: w, db: db, unspecified: map[string]bool{}, inlined: map[string]bool{}, usedSpecs: map[string]bool{}, pathBudget: 6000, srcCache: map[string][]byte{}, mergeInlined: true, funcBudgetS: 45}
 }
 
 func (e *Engine) newCell(st *State, v Val) int {
@@ -378,6 +383,9 @@ func (e *Engine) newFrame(fn *ssa.Function, parent *Frame, contract *Contract) *
 	if contract != nil {
 		for _, l := range fr.loops {
 			l.Spec = contract.Loops[l.Ordinal]
+			if l.Spec == nil {
+				l.Spec = contract.Loops[0]
+			}
 		}
 	}
 	return fr
@@ -420,6 +428,9 @@ func (e *Engine) runBlockAt(fr *Frame, st *State, b *ssa.BasicBlock, from *ssa.B
 				}
 			}
 			st.trace = append(st.trace, fmt.Sprintf("%s#%d", fr.fn.Name(), b.Index))
+			if !e.deadline.IsZero() && time.Now().After(e.deadline) {
+				unsupp("time budget for symbolic execution exceeded (%ds)", e.funcBudgetS)
+			}
 		}
 		var next *ssa.BasicBlock
 		for idx := start; idx < len(b.Instrs); idx++ {
@@ -439,9 +450,9 @@ func (e *Engine) runBlockAt(fr *Frame, st *State, b *ssa.BasicBlock, from *ssa.B
 			case *ssa.If:
 				c := e.val(fr, st, x.Cond).T
 				tb, fb := b.Succs[0], b.Succs[1]
-				if c.isTrue() {
+				if k := st.known(c); k == 1 {
 					next = tb
-				} else if c.isFalse() {
+				} else if k == -1 {
 					next = fb
 				} else {
 					e.paths++
@@ -594,6 +605,11 @@ func (e *Engine) step(fr *Frame, st *State, ins ssa.Instruction) []*State {
 			e.check(fr, st, ins, Ne(p.Ref, IntLit(0)), "nil dereference")
 		}
 		v := e.val(fr, st, x.Val)
+		if p.Kind == PLocal && v.P != nil && v.T == nil && v.Fs == nil {
+			// a local cell may hold an interior pointer (place) as such
+			st.store(p, v)
+			break
+		}
 		v = e.materialize(v, x.Val.Type())
 		st.store(p, v)
 	case *ssa.UnOp:
@@ -1230,7 +1246,14 @@ func (e *Engine) mapUpdate(fr *Frame, st *State, x *ssa.MapUpdate) {
 		return
 	}
 	k := e.val(fr, st, x.Key).T
-	v := e.materialize(e.val(fr, st, x.Value), x.Value.Type())
+	raw := e.val(fr, st, x.Value)
+	if raw.Clo != nil {
+		if st.mapClos == nil {
+			st.mapClos = map[int][]cloEntry{}
+		}
+		st.mapClos[m.id] = append(st.mapClos[m.id], cloEntry{key: k, clo: raw.Clo})
+	}
+	v := e.materialize(raw, x.Value.Type())
 	e.mapStore(st, mt, ks, m, k, v)
 }
 
@@ -1376,7 +1399,7 @@ func chanKey(ch ssa.Value) string {
 			st := fa.X.Type().Underlying().(*types.Pointer).Elem()
 			if n, ok := st.(*types.Named); ok && n.Obj().Pkg() != nil {
 				f := st.Underlying().(*types.Struct).Field(fa.Field)
-				return "chan:" + shortPkg(n.Obj().Pkg().Path()) + "." + n.Obj().Name() + "." + f.Name()
+				return "chan:" + n.Obj().Pkg().Name() + "." + n.Obj().Name() + "." + f.Name()
 			}
 		}
 	}
